@@ -219,6 +219,8 @@ class LifeWorld(ConnWorld):
             return
         if flag != (st == "CONNECTED"):
             self.mon.viol.append(f"C05:flag:inside the stop callback is_connected={flag} while the state reads {st}")
+        if getattr(self, "stop_raises", False):
+            raise RuntimeError("application stop callback failed")
 
     def state(self) -> str:
         return self.conn.connection_state.name
@@ -267,9 +269,16 @@ class LifeHarness:
         dns_answer: tuple[str, ...] = ("10.0.0.7",),
         legal_only: bool = False,
         etimedout: bool = False,
+        subscriber_raises: str | None = None,
+        stop_raises: bool = False,
     ) -> None:
         self.noise = noise
         self.seed = seed
+        # application code that fails: a subscriber of sensor states that raises the named exception on every call (the exception
+        # escapes data_received and asyncio tears the transport down: one more close cause), and a stop callback that raises after
+        # it has been recorded
+        self.subscriber_raises = subscriber_raises
+        self.stop_raises = stop_raises
         self.atoms = tuple(a for a in atoms if (noise or a not in NOISE_ONLY) and not (noise and a in PLAIN_ONLY))
         self.pairs = tuple(
             p
@@ -305,6 +314,16 @@ class LifeHarness:
         )
         for o in self.oracles:
             o.attach(w)
+        if self.subscriber_raises is not None:
+            exc_cls = {"ValueError": ValueError, "StopIteration": StopIteration, "KeyError": KeyError, "ZeroDivisionError": ZeroDivisionError}[self.subscriber_raises]
+
+            def failing_subscriber(msg: Any) -> None:
+                w.note("subscriber_raises", exc_cls.__name__)
+                raise exc_cls("application callback failed")
+
+            w.conn.add_message_callback(failing_subscriber, (env.pb().SensorStateResponse,))
+        w.stop_raises = self.stop_raises
+        w.subscriber_raises = self.subscriber_raises
         s = self.seed
         if s == "init":
             return w
